@@ -3,7 +3,7 @@
 From Coq Require Import List Bool Arith Lia.
 From CM Require Import Issuance.Model Issuance.Proofs Issuance.Invariants Issuance.OwnFault
   Issuance.NoReissueTL Issuance.NoReissue Issuance.AgreeTL Issuance.Agree Issuance.Refuted Issuance.Takeover
-  Issuance.ManageTL Issuance.ManageTakeover.
+  Issuance.ManageTL Issuance.ManageTakeover Issuance.FreshTL Issuance.Fresh.
 Import ListNotations.
 
 Lemma ex_callers_agree_nontrivial :
@@ -71,4 +71,25 @@ Proof.
     exists s. assert (Hr : reachable [manage_canon; manage_canon] no_sto s) by (eapply reachable_run; eauto).
     vm_compute in R. inversion R; subst s es; clear R.
     do 2 eexists. split; [exact Hr|]. unfold thread_at; simpl. split; [reflexivity|]. split; [reflexivity|]. auto.
+Qed.
+
+Lemma ex_callers_agree_not_due_nontrivial :
+  let cs := [manage_canon; manage_canon] in
+  canon0 0 0 cs /\ (forall c, In c cs -> touches 0 c -> c_issdue c = false) /\ stored_match due_bundle 0 /\
+  exists s es th0 th1 ce,
+    runs (ok3m 0) (init_state cs due_bundle) es s /\
+    thread_at s 0 th0 /\ thread_at s 1 th1 /\ tpc th0 = PDone ROk /\ tpc th1 = PDone ROk /\
+    flt th0 = false /\ flt th1 = false /\ seen th0 = Some ce /\ seen th1 = Some ce /\ c_due ce = false /\
+    length (filter (fun e => match e_op e with OIssS _ => true | _ => false end) es) = 1.
+Proof.
+  simpl. split; [|split; [|split]].
+  - intros c [<-|[<-|[]]] _; unfold on_key, cert_prog, force_eff; simpl; auto.
+  - intros c [<-|[<-|[]]] _; reflexivity.
+  - intros vk vc H1 H2. vm_compute in H1, H2. inversion H1; inversion H2; subst. reflexivity.
+  - destruct (run_ok3m 0 (init_state [manage_canon; manage_canon] due_bundle) (sched (rep 7 0 ++ rep 6 1 ++ rep 15 0 ++ rep 9 1)))
+      as [[s es]|] eqn:R; [|vm_compute in R; discriminate].
+    exists s, es. pose proof (run_ok3m_runs _ _ _ _ _ R) as Hr.
+    vm_compute in R. inversion R; subst s es; clear R.
+    do 3 eexists. split; [exact Hr|]. unfold thread_at; simpl. split; [reflexivity|]. split; [reflexivity|].
+    repeat split; reflexivity.
 Qed.
